@@ -287,7 +287,7 @@ def run(ctx):
     try:
         from . import c01
         ctx.run("C01-O4", "can_fit is asked of the capacity / available resource about the load (roles not swapped)", c01.o4_can_fit_roles, floor=8)
-        ctx.run("C01-O3", "can_fit(capacity, load) iff load <= capacity in every dimension", c01.o3_can_fit_law, floor=7)
+        ctx.run("C01-O3", "can_fit(capacity, load) iff load <= capacity in every dimension", c01.o3_can_fit_law, floor=4)
     except (ImportError, AttributeError):
         pass
     ctx.run("C12-K1", "a tour is identified by (vehicle id, shift index) in the job-presence rule", k1_tour_identity, floor=1)
